@@ -391,7 +391,41 @@ def gen_hunkpath():
     return "GenHunkPath.v", text, {"tested": t, "on_null": a, "otherwise": b}
 
 
-GENERATORS = {"proc": gen_proc, "vte": gen_vte, "features": gen_features, "syntax": gen_syntax, "counter": gen_counter, "grep": gen_grep, "merge": gen_merge, "sbs": gen_sbs, "hunkpath": gen_hunkpath}
+def gen_ingest():
+    """the carriage-return clean-up of StateMachine::ingest_line_utf8 (src/delta.rs): is it the shape Ingest.v models?"""
+    src = rustsrc.load(os.path.join(REPO, "src/delta.rs"))
+    body = norm(rustsrc.fn_body(src, r"fn ingest_line_utf8\("))
+    want = ('if let Some(cr_index) = self.raw_line.rfind(\'\\r\') { if ansi::measure_text_width(&self.raw_line[cr_index + 1..]) == 0 { '
+            'self.raw_line = format!( "{}{}", &self.raw_line[..cr_index], &self.raw_line[cr_index + 1..] ); } }')
+    first = body.startswith("self.raw_line = raw_line; " + want)
+    once = body.count("rfind(") == 1 and body.count("'\\r'") == 1
+    text = ("(* GENERATED by tools/translate.py from src/delta.rs (ingest_line_utf8): does the function begin by searching the\n"
+            "   whole raw line for its last carriage return and removing it iff the display width of everything after it is 0\n"
+            "   (the shape Ingest.v models), and is that the only place a carriage return is looked for? *)\n"
+            f"Definition cr_cleanup_is_modelled : bool := {coq_bool(first and once)}.\n")
+    return "GenIngest.v", text, {"cr_cleanup_is_modelled": first and once}
+
+
+def gen_submodule():
+    """is the submodule short-form handler (src/handlers/submodule.rs) the one Submodule.v models?"""
+    src = rustsrc.load(os.path.join(REPO, "src/handlers/submodule.rs"))
+    test = norm(rustsrc.fn_body(src, r"fn test_submodule_short_line\("))
+    hand = norm(rustsrc.fn_body(src, r"pub fn handle_submodule_short_line\("))
+    m = re.search(r'Regex::new\("(.*?)"\)\.unwrap\(\)', src)
+    want_test = ('matches!(self.state, State::HunkHeader(_, _, _, _)) && self.line.starts_with("-Subproject commit ") || '
+                 'matches!(self.state, State::SubmoduleShort(_)) && self.line.starts_with("+Subproject commit ")')
+    want_head = "if !self.test_submodule_short_line() || self.config.color_only { return Ok(false); } if let Some(commit) = get_submodule_short_commit(&self.line) {"
+    want_tail = "Ok(true) } else { Ok(false) }"
+    ok = (test == want_test and hand.startswith(want_head) and hand.endswith(want_tail) and hand.count("Ok(true)") == 1
+          and hand.count("self.state =") == 1 and "self.state = State::SubmoduleShort(commit.to_owned());" in hand
+          and bool(m) and m.group(1) == "^[-+]Subproject commit ([0-9a-f]{40})(-dirty)?$")
+    text = ("(* GENERATED by tools/translate.py from src/handlers/submodule.rs: the state / prefix test, the --color-only guard, the\n"
+            "   claim-only-when-the-regex-matches structure and the regex itself are those Submodule.v models. *)\n"
+            f"Definition submodule_handler_is_modelled : bool := {coq_bool(ok)}.\n")
+    return "GenSubmodule.v", text, {"submodule_handler_is_modelled": ok}
+
+
+GENERATORS = {"proc": gen_proc, "vte": gen_vte, "features": gen_features, "syntax": gen_syntax, "counter": gen_counter, "grep": gen_grep, "merge": gen_merge, "sbs": gen_sbs, "hunkpath": gen_hunkpath, "ingest": gen_ingest, "submodule": gen_submodule}
 
 
 def run(which=None):
